@@ -318,7 +318,14 @@ func DrawSource(g *prng.Rng, repo string, maxLen int) ([]byte, Class) {
 	case 9:
 		ll := LitClasses[g.N(len(LitClasses))]
 		ml := MatchClasses[g.N(len(MatchClasses))]
-		b, name = LengthCodes(g, ll, ml, 1+g.N(4)), "lengthcodes"
+		reps := 1 + g.N(4)
+		if ll > 4000 {
+			reps = 1 + g.N(2) // the long-run classes would otherwise exceed every size bound
+		}
+		b, name = LengthCodes(g, ll, ml, reps), "lengthcodes"
+		if len(b) > maxLen {
+			b = b[:maxLen]
+		}
 	case 10:
 		n := SizeClass(g, minI(maxLen, 200000))
 		b, name = TailRepeat(g, n, g.Pick(4, 5, 6, 8, 12, 13, 14, 15, 16, 20, 100, 1000)), "tailrepeat"
